@@ -171,7 +171,6 @@ def generate(rng, tier, index):
     max_vars = rng.randint(1, 8) if not big else rng.randint(4, 11)
     cap = 4096 if not big else 16384
     budget_hi = rng.choice([4, 8, 12, 18, 25]) if not big else rng.choice([12, 25, 40, 60])
-    solved = [False] * n_sessions
     keys = [set() for _ in range(n_sessions)]
     use_witness = [rng.random() < 0.65 for _ in range(n_sessions)]
     witness = [[] for _ in range(n_sessions)]
@@ -218,7 +217,6 @@ def generate(rng, tier, index):
             ops.append({"s": s, "op": "ensure", "cs": cs, "nest": rng.randint(0, 7)})
         elif k == "find_answer":
             ops.append({"s": s, "op": "find_answer"})
-            solved[s] = True
         elif k == "solve":
             ops.append({"s": s, "op": "solve"})
         elif k == "add_key":
@@ -796,4 +794,3 @@ def shrink_candidates(sc):
             for hi in core.shrink_int(op["hi"], op["lo"]):
                 if hi >= op["lo"]:
                     yield dict(sc, ops=ops[:n] + [dict(op, hi=hi)] + ops[n + 1 :])
-    # 5. simplest backend last (keeps the failing component visible)
